@@ -238,6 +238,15 @@ pub fn draw(seed: u64, i: u64, tasks: &[Task], thorough: bool) -> Scenario {
             _ => {}
         }
     }
+    // strong equivalence ignores specifications, user guides and proof outlines: valid ones lying around or
+    // named among the arguments must not change anything ("wherever they appear")
+    if equivalence == "strong" && rng.pct(30) {
+        for (ext, content) in [("spec", "spec: q <-> t.\nspec: p.\n"), ("ug", "input: t/0.\noutput: p/0.\noutput: q/0.\n"), ("po", "lemma: forall X (q(X) -> p(X)).\n")] {
+            if rng.pct(70) {
+                pool.push((format!("idle-{ext}"), ext.to_string(), content.to_string()));
+            }
+        }
+    }
     let has_spec = pool.iter().any(|p| p.0 == "spec");
     // missing-role cases
     if rng.pct(8) {
@@ -257,9 +266,18 @@ pub fn draw(seed: u64, i: u64, tasks: &[Task], thorough: bool) -> Scenario {
     let upper_ok = rng.pct(15);
     let mut used = BTreeSet::new();
     let mut named: Vec<(String, String, String)> = vec![]; // (meant, file name, content)
+    let mut last_stem: Option<String> = None;
     for (meant, ext, content) in pool {
         let name = loop {
-            let n = format!("{}.{}", stem(&mut rng, upper_ok), ext);
+            // sometimes a name that extends the previous one (a.lp / a.1.lp / a.lp.lp): prefixes sort first byte-wise
+            let st = match (&last_stem, rng.below(5)) {
+                (Some(p), 0) => format!("{p}.{}", rng.below(10)),
+                (Some(p), 1) => format!("{p}.lp"),
+                (Some(p), 2) => format!("{p}{}", (b'a' + rng.below(26) as u8) as char),
+                _ => stem(&mut rng, upper_ok),
+            };
+            last_stem = Some(st.clone());
+            let n = format!("{st}.{ext}");
             if n != format!(".{ext}") && used.insert(n.to_ascii_lowercase()) {
                 break n;
             }
